@@ -86,10 +86,25 @@ def run_case(c):
                 a, b = objs[op[1]], (None if op[2] is None else objs[op[2]])
                 before = [links_of(o) for o in objs]
                 dicts = [dict(o.__dict__) for o in objs]
+                # a move is refused exactly when the new parent is the node itself or one of its descendants -
+                # where the targets of links sit plays no role
+                x, loops = b, False
+                while x is not None:
+                    if x is a:
+                        loops = True
+                    x = x.parent
                 try:
                     a.parent = b
+                    if loops:
+                        struct_ok = False
+                        why.append("moving %d below itself was accepted" % op[1])
+                    elif a.parent is not b:
+                        struct_ok = False
+                        why.append("after moving %d its parent is not the requested one" % op[1])
                 except (LoopError, TreeError):
-                    pass
+                    if not loops:
+                        struct_ok = False
+                        why.append("a legal move of %d was refused" % op[1])
                 after = [links_of(o) for o in objs]
                 for i, o in enumerate(objs):
                     # only the moved node, its old and its new parent may see their links change
